@@ -505,6 +505,12 @@ def fam_mem_fixed():
         c = _mem_prog(f"mfixed-same-enable-{en_nm}", P(X), en, fam="fixed")
         c["stmts"] += [["mem", "n", "signal-N"], ["write", "n", P(Z, "signal-N"), en], ["sig", "s0", ["read", "n"]], ["mem", "k", "signal-K"], ["write", "k", P(["bin", "+", X, Z], "signal-K"), en], ["sig", "t0", ["read", "k"]]]
         progs.append(c)
+    for nm, data, en, mt in (("basic", P(X), ["cmp", ">", Y, K(0)], "signal-M"), ("typed", ["bin", "*", X, K(2)], ["cmp", ">", Y, K(5)], "signal-A"), ("shared", P(["bin", "+", X, K(1)]), ["cmp", ">", X, K(3)], "signal-M"), ("bare", P(X), Y, "signal-M")):
+        c = _mem_prog(f"mfixed-read-before-write-{nm}", data, en, mtype=mt, readers=0, fam="fixed")
+        # stmts: inputs, mem, write  ->  move two readers BEFORE the write, one after
+        w = c["stmts"].pop()
+        c["stmts"] += [["sig", "r0", ["read", "m"]], ["sig", "r1", ["proj", ["bin", "+", ["read", "m"], K(1)], "signal-X"]], w, ["sig", "r2", ["proj", ["bin", "*", ["read", "m"], K(2)], "signal-Y"]]]
+        progs.append(c)
     named_en = _mem_prog("mfixed-named-enable", P(X), V("en"), fam="fixed")
     named_en["stmts"].insert(3, ["sig", "en", ["cmp", ">", Y, K(0)]])
     progs.append(named_en)
@@ -712,6 +718,12 @@ def fam_latch_fixed():
         c = _latch_prog(f"qfixed-{order}-same-typed-siblings-2", K(1), ["cmp", ">", T, K(50)], ["cmp", "<", T, K(10)], order, [], fam="fixed")
         c["stmts"] = sib + c["stmts"] + [["sig", "d1", ["proj", ["bin", "+", T, V("y")], "signal-X"]], ["sig", "d2", ["proj", ["bin", "+", V("w"), V("y")], "signal-Y"]], ["sig", "d3", ["proj", ["bin", "*", V("w"), T], "signal-Z"]]]
         progs.append(c)
+        c = _latch_prog(f"qfixed-{order}-read-before-write", K(1), ["cmp", "<", T, K(20)], ["cmp", ">=", T, K(80)], order, ["t"], fam="fixed")
+        c["stmts"] = [st for st in c["stmts"] if st[0] != "latch"][:2] + [["sig", "r0", ["read", "m"]], ["sig", "r1", ["proj", ["cmp", ">", ["read", "m"], K(0)], "signal-X"]]] + [st for st in c["stmts"] if st[0] == "latch"]
+        progs.append(c)
+        c = _latch_prog(f"qfixed-{order}-read-before-write-v5", K(5), ["cmp", ">", T, K(10)], ["cmp", ">", U, K(10)], order, ["t", "u"], fam="fixed")
+        c["stmts"] = [st for st in c["stmts"] if st[0] != "latch"][:3] + [["sig", "r0", ["read", "m"]], ["sig", "r1", ["proj", ["cmp", ">", ["read", "m"], K(0)], "signal-X"]]] + [st for st in c["stmts"] if st[0] == "latch"]
+        progs.append(c)
         progs.append(_latch_prog(f"qfixed-{order}-item-type", K(1), ["cmp", "<", T, K(20)], ["cmp", ">=", T, K(80)], order, ["t"], mtype="iron-plate", fam="fixed"))
     return progs
 
@@ -804,6 +816,9 @@ def fam_entity_fixed():
     # two producers of the same kind and signal, each driving far-apart entities (relays needed)
     din = [("a", "signal-A", 10007), ("b", "signal-B", 10009), ("c", "iron-plate", 10037), ("d", "signal-A", 10039)]
     for dist in (24, 30):
+        progs.append(dict(_ent_prog(f"efixed-two-inputs-far-{dist}-poles", [["place", "p0", "small-lamp", K(0), K(0), None], ["place", "p1", "small-lamp", K(dist), K(0), None], ["place", "q0", "small-lamp", K(0), K(2), None], ["place", "q1", "small-lamp", K(dist), K(2), None],
+                                                                 ["enable", "p0", ["cmp", ">", A, K(3)]], ["enable", "p1", ["cmp", ">", A, K(3)]], ["enable", "q0", ["cmp", ">", V("d"), K(3)]], ["enable", "q1", ["cmp", ">", V("d"), K(3)]]], fam="fixed", inputs=din),
+                          params={"builds": [{"tag": "opt+medium", "optimize": True, "poles": "medium"}, {"tag": "noopt+substation", "optimize": False, "poles": "substation"}]}))
         progs.append(_ent_prog(f"efixed-two-inputs-far-{dist}", [["place", "p0", "small-lamp", K(0), K(0), None], ["place", "p1", "small-lamp", K(dist), K(0), None], ["place", "q0", "small-lamp", K(0), K(1), None], ["place", "q1", "small-lamp", K(dist), K(1), None],
                                                                  ["enable", "p0", ["cmp", ">", A, K(3)]], ["enable", "p1", ["cmp", ">", A, K(3)]], ["enable", "q0", ["cmp", ">", V("d"), K(3)]], ["enable", "q1", ["cmp", ">", V("d"), K(3)]]], fam="fixed", inputs=din))
     progs.append(_ent_prog("efixed-two-computed-far", [["sig", "x1", ["bin", "*", A, K(2)]], ["sig", "x2", ["bin", "*", V("d"), K(3)]], ["place", "p0", "small-lamp", K(0), K(0), None], ["place", "p1", "small-lamp", K(28), K(0), None], ["place", "q0", "small-lamp", K(0), K(2), None], ["place", "q1", "small-lamp", K(28), K(2), None],
